@@ -13,14 +13,18 @@ LOOPS = ('ForStmt', 'WhileStmt', 'CXXForRangeStmt', 'DoStmt', 'SwitchStmt')
 
 
 def is_worklist_loop(unit, n):
+    """(worklist text, [extra conjuncts of the loop condition]) for `while (!W.empty() [&& ...])`"""
     if n['k'] != 'WhileStmt':
         return None
-    c = strip(n['c'])
-    if c is not None and c['k'] == 'UnaryOperator' and c.get('op') == '!':
-        i = strip(c['ch'][0])
-        if i is not None and i['k'] == 'CXXMemberCallExpr' and method_name(i) == 'empty':
-            return unit.text(strip(i.get('obj')), 0)
-    return None
+    from vfacts import conjuncts
+    W, extra = None, []
+    for pol, atom in conjuncts(n['c'], True):
+        a = strip(atom)
+        if pol is False and a is not None and a['k'] == 'CXXMemberCallExpr' and method_name(a) == 'empty' and W is None:
+            W = unit.text(strip(a.get('obj')), 0)
+        else:
+            extra.append((pol, atom))
+    return (W, extra) if W else None
 
 
 def run(unit, em):
@@ -29,9 +33,18 @@ def run(unit, em):
         if fn.body is None or '/src/' not in f or '/mtbdd/' in f or '/util/' in f:
             continue
         for lp in fn.walk():
-            W = is_worklist_loop(unit, lp)
-            if not W:
+            wl = is_worklist_loop(unit, lp)
+            if not wl:
                 continue
+            W, extra = wl
+            for pol, atom in extra:
+                a = strip(atom)
+                sizes = [x for x in walk(atom) if x['k'] == 'CXXMemberCallExpr' and method_name(x) == 'size']
+                objs = {unit.text(strip(x.get('obj')), 0) for x in sizes}
+                if len(objs) >= 2:
+                    em.violation(lp, 'while (!%s.empty() && ...)' % W, 'the worklist loop also stops on `%s`, a comparison of the cardinalities of two different containers: equal counts do not mean everything was reached, queued elements are abandoned' % unit.text(atom, 70))
+                else:
+                    em.ok(lp, 'while (!%s.empty() && ...)' % W, 'extra exit condition is not a cardinality comparison')
             breaks = []
             for n in walk(lp['body'], lambdas=False):
                 if n['k'] == 'BreakStmt' and enclosing(n, LOOPS) is lp:
